@@ -161,7 +161,7 @@ def params_for(sp, route, tier):
         return out
     tols = range(len(TOLS))
     if route == "SC_apply":
-        ordmaxs = [last, last - 1] if kind == "B" else [last]
+        ordmaxs = [last, last - 1] if kind == "B" and len(sp[1]) < len(SYMS) else [last]
         return [(om, ox, t) for ox in ordmaxs for om in range(ox + 1) for t in tols]
     oms = list(range(C)) + ([C] if route == "pLSCF.run" else [])
     return [(om, last, t) for om in oms for t in tols]
@@ -438,17 +438,17 @@ def plan(tier):
     if tier == "quick":
         return [
             (("A", 3, False), ("SC_apply",), 250),
-            (("A", 2, True), ROUTES, 100),
+            (("A", 2, True), ("SC_apply",), 100),
+            (("A", 2, False), ("SSIcov.run", "pLSCF.run"), 50),
             (("B", SUB5), ("SC_apply",), 400),
-            (("B", SUB4), ("SSIcov.run",), 128),
-            (("B", SUB3B), ("pLSCF.run",), 81),
+            (("B", SUB3B), ("SSIcov.run", "pLSCF.run"), 81),
             (("D", 8, SUB5), ("SC_apply",), 25),
             (("D", 41, SUB5), ("SC_apply",), 15),
             (("D", 41, SUB3), ("SSIcov.run",), 9),
             (("D", 41, SUB2), ("pLSCF.run",), 4),
         ]
     return [
-        (("A", 4, True), ("SC_apply",), 1000),
+        (("A", 4, False), ("SC_apply",), 1000),
         (("A", 3, True), ROUTES, 250),
         (("A", 2, True), ROUTES, 100),
         (("B", list(range(len(SYMS)))), ("SC_apply",), 2000),
